@@ -495,6 +495,41 @@ def run(ctx):
     try: _run(ctx, runner)
     finally: runner.close()
 
+def real_binary_recompact(ctx):
+    """the caller's side of recompaction (NinjaMain::IsPathDead is what BuildLog::Recompact asks): the latest record of every output that is
+    still in the manifest OR still on disk survives `-t recompact` and the automatic recompaction; only outputs that are in neither are dropped"""
+    import subprocess, tempfile, shutil
+    ninja = os.path.join(vlib.build_impl('plain'), 'ninja'); n = 0
+    d = tempfile.mkdtemp(prefix='verif-c08-', dir='/dev/shm')
+    try:
+        full = 'rule t\n  command = echo x > $out\nbuild keep: t\nbuild stale: t\nbuild gone: t\nbuild sub/stale2: t\n'
+        for auto in (False, True):
+            for f in ('.ninja_log', 'keep', 'stale', 'gone', 'sub/stale2'):
+                if os.path.exists(os.path.join(d, f)): os.unlink(os.path.join(d, f))
+            open(d + '/build.ninja', 'w').write(full)
+            p = subprocess.run([ninja, '-C', d], stdout=subprocess.PIPE, stderr=subprocess.STDOUT, timeout=60); n += 1
+            if p.returncode != 0: continue
+            open(d + '/build.ninja', 'w').write('rule t\n  command = echo x > $out\nbuild keep: t\n'); os.unlink(d + '/gone')
+            if auto:      # more than 100 records, more than three per output: the next session recompacts when it opens the log
+                lines = open(d + '/.ninja_log').read().split('\n'); recs = [l for l in lines[1:] if l]
+                open(d + '/.ninja_log', 'w').write(lines[0] + '\n' + ''.join(r + '\n' for r in recs * 30))
+                p = subprocess.run([ninja, '-C', d, 'keep'], stdout=subprocess.PIPE, stderr=subprocess.STDOUT, timeout=60)
+            else:
+                p = subprocess.run([ninja, '-C', d, '-t', 'recompact'], stdout=subprocess.PIPE, stderr=subprocess.STDOUT, timeout=60)
+            n += 1
+            recs = [l.split('\t') for l in open(d + '/.ninja_log').read().split('\n')[1:] if l]
+            names = [r[3] for r in recs if len(r) == 5]
+            what = 'automatic recompaction (120 records, 4 outputs)' if auto else '-t recompact'
+            if auto and len(recs) > 8: ctx.violation('recompact-real', 'real binary: see tools/props/c08.py real_binary_recompact\n', '%s did not happen: %d records left' % (what, len(recs)))
+            for o in ('keep', 'stale', 'sub/stale2'):
+                if names.count(o) != 1:
+                    ctx.violation('recompact-real', 'real binary: manifest\n%s\nthen the statements of stale, gone, sub/stale2 are removed from the manifest, `gone` is deleted, %s\n' % (full, what),
+                                  '%s left %d records for `%s` (%s): the latest record of an output that is still %s must survive' % (what, names.count(o), o, sorted(set(names)), 'in the manifest' if o == 'keep' else 'on disk'))
+            if 'gone' in names:
+                ctx.violation('recompact-real', 'real binary: %s\n' % what, '%s kept the record of `gone`, which is neither in the manifest nor on disk' % what)
+    finally: shutil.rmtree(d, ignore_errors=True)
+    return n
+
 def _run(ctx, runner):
     global LISTED
     LISTED = any(k.get('property') == 'C08' and k.get('id') == KNOWN_ID for k in ctx.known_list)
@@ -513,6 +548,7 @@ def _run(ctx, runner):
                        samples=[{'case': abbreviate(c.line), 'impl': abbreviate(r or '')} for c, r in list(zip(cases, res))[:5]], distribution=dict(totals['dist']), exhaustive=False)
         return
     quick = ctx.quick()
+    totals['dist']['real-binary recompaction runs'] = real_binary_recompact(ctx)
     rnd = random.Random(ctx.seed * 1000003 + 8)
     g = Gen(rnd)
     # ---------------- phase 0: histories -------------------------------------------------------------------------
